@@ -296,9 +296,9 @@ Lemma scan_q_spec : forall limit maxBytes q acc b c,
     (c = 0 -> q <> [] -> taken <> []).
 Proof.
   intros limit maxBytes; induction q as [|kv r IH]; intros acc b c; cbn [scan_q].
-  - exists [], []. rewrite app_nil_r. repeat split; auto. intros _ H; contradiction.
+  - exists [], []. repeat rewrite app_nil_r. repeat split; auto.
   - destruct ((0 <? maxBytes) && (maxBytes <? b + kv_size kv) && (0 <? c)) eqn:E1.
-    + exists [], (kv :: r). rewrite app_nil_r. repeat split; auto. intros ->. rewrite andb_false_r in E1. discriminate.
+    + exists [], (kv :: r). repeat rewrite app_nil_r. repeat split; auto. intros ->. rewrite andb_false_r in E1. discriminate.
     + destruct ((0 <? limit) && (limit <=? c + 1)) eqn:E2.
       * exists [kv], r. repeat split; auto. intros _ _. discriminate.
       * destruct (IH (acc ++ [kv]) (b + kv_size kv) (c + 1)) as [tk [rs [Hq [Hs _]]]].
@@ -367,3 +367,267 @@ Proof.
   intros limit maxBytes [|kv r] b H; [contradiction|]. cbn [ktake].
   rewrite andb_false_r. destruct (limit <=? 0 + 1); discriminate.
 Qed.
+
+(* ------------------------------------------------------------------------------------------ *)
+(* the listing                                                                                *)
+(* ------------------------------------------------------------------------------------------ *)
+Lemma kv_listing_sorted : forall db deltas prefix cursor incl,
+  bsorted (kv_listing db deltas prefix cursor incl).
+Proof.
+  intros. unfold kv_listing. apply filter_map_keys_sorted; [apply usort_b_sorted|].
+  intros k x H. destruct (has_prefix prefix k && bltb cursor k); [|discriminate].
+  destruct (kv_world db deltas k); inversion H; auto.
+Qed.
+
+Lemma kv_listing_in : forall db deltas prefix cursor incl k v,
+  In (k, v) (kv_listing db deltas prefix cursor incl) <->
+  kqual prefix cursor k = true /\ exists v0, kv_world db deltas k = Some v0 /\ v = kv_proj incl v0.
+Proof.
+  intros. unfold kv_listing. rewrite filter_map_in. fold (kqual prefix cursor). split.
+  - intros [k' [Hin Hf]]. unfold kqual in *. destruct (has_prefix prefix k' && bltb cursor k') eqn:E; [|discriminate].
+    destruct (kv_world db deltas k') eqn:Ew; inversion Hf; subst. split; auto. eauto.
+  - intros [Hq [v0 [Hw ->]]]. exists k. split.
+    + apply usort_b_in. apply in_or_app. unfold kv_world in Hw.
+      destruct (kfind k (kv_flat deltas)) eqn:Ef.
+      * right. apply kfind_some_in in Ef. apply (in_map fst) in Ef. auto.
+      * left. apply kfind_some_in in Hw. apply (in_map fst) in Hw. auto.
+    + unfold kqual in Hq. rewrite Hq, Hw. auto.
+Qed.
+
+Lemma kv_walk_flat : forall prefix cursor deltas,
+  kv_walk prefix cursor deltas = fold_left (kv_walk_step prefix cursor) (kv_flat deltas) [].
+Proof. intros. unfold kv_walk, kv_flat. apply fold_left_concat. Qed.
+
+Lemma NoDup_map_filter {A B} (g : A -> B) (f : A -> bool) (l : list A) :
+  NoDup (map g l) -> NoDup (map g (filter f l)).
+Proof.
+  induction l as [|x t IH]; cbn; auto. intro H. inversion H; subst.
+  destruct (f x); cbn; auto. constructor; auto.
+  intro Hin. apply H2. apply in_map_iff in Hin. destruct Hin as [y [Hy Hin]].
+  apply filter_In in Hin. rewrite <- Hy. apply in_map. tauto.
+Qed.
+
+Lemma ssorted_map_val {V W} (g : bytes * V -> W) (l : list (bytes * V)) :
+  ssorted bltb l -> ssorted bltb (map (fun r => (fst r, g r)) l).
+Proof.
+  induction l as [|x t IH]; cbn; intro H; [constructor|].
+  apply ssorted_cons_inv in H. destruct H as [H A]. constructor; auto.
+  rewrite Forall_forall in *. intros y Hy. apply in_map_iff in Hy. destruct Hy as [z [<- Hz]].
+  unfold klt. cbn. apply A; auto.
+Qed.
+
+Lemma sorted_last_max : forall (l : list kvrow) z, bsorted l -> last_opt l = Some z ->
+  forall x, In x l -> bltb (fst z) (fst x) = false.
+Proof.
+  intros l z Hs Hl x Hx. apply last_opt_split in Hl. destruct Hl as [l' ->].
+  apply ssorted_app_inv in Hs. destruct Hs as [_ [_ C]].
+  apply in_app_or in Hx. destruct Hx as [Hx|[<-|[]]]; [|apply bltb_irrefl].
+  specialize (C x z Hx (or_introl eq_refl)). unfold klt in C.
+  destruct (bltb (fst z) (fst x)) eqn:E; auto.
+  rewrite (bltb_trans _ _ _ C E) in *. rewrite bltb_irrefl in *. discriminate.
+Qed.
+
+(* ------------------------------------------------------------------------------------------ *)
+(* one page                                                                                   *)
+(* ------------------------------------------------------------------------------------------ *)
+Section Page.
+  Variables (db : list kvrow) (deltas : list (list kvmod)) (prefix cursor : bytes)
+            (limit maxBytes : N) (incl : bool) (pe : bytes).
+  Hypothesis Hdb : NoDup (map fst db).
+  Hypothesis Hok : forall r, In r db -> bytes_ok (fst r).
+  Hypothesis Hlim : 1 <= limit.
+  Hypothesis Hpe : prefix_end prefix = Some pe.
+
+  Definition p_flat := kv_flat deltas.
+  Definition p_dr := kv_walk prefix cursor deltas.
+  Definition p_L := kv_listing db deltas prefix cursor incl.
+  Definition p_qs := if negb (is_nil cursor) && bleb prefix cursor then cursor else prefix.
+  Definition p_rows := isort bltb (filter (fun r => bleb p_qs (fst r) && bltb (fst r) pe) db).
+  Definition p_Q := qproj cursor p_dr incl p_rows.
+
+  Lemma dr_find : forall k, kfind k p_dr = if kqual prefix cursor k then kfind k p_flat else None.
+  Proof. intro k. unfold p_dr. rewrite kv_walk_flat, walk_find. cbn. auto. Qed.
+
+  Lemma dr_keys : (forall k, In k (map fst p_dr) -> kqual prefix cursor k = true) /\ NoDup (map fst p_dr).
+  Proof.
+    unfold p_dr. rewrite kv_walk_flat. apply walk_keys; cbn; [tauto | constructor].
+  Qed.
+
+  Lemma rows_sorted : bsorted p_rows.
+  Proof. unfold p_rows. apply isort_ssorted; auto using bltb_irrefl, bltb_trans, bltb_total. apply NoDup_map_filter; auto. Qed.
+
+  Lemma qs_ge_prefix : bleb prefix p_qs = true.
+  Proof.
+    unfold p_qs. destruct (negb (is_nil cursor) && bleb prefix cursor) eqn:E.
+    - apply andb_true_iff in E. tauto.
+    - apply bleb_refl.
+  Qed.
+
+  Lemma Q_sorted : bsorted p_Q.
+  Proof.
+    unfold p_Q, qproj. apply (ssorted_map_val (fun r => kv_proj incl (snd r))).
+    apply ssorted_filter. apply rows_sorted.
+  Qed.
+
+  Lemma Q_in : forall k v, In (k, v) p_Q <->
+    exists v0, In (k, v0) db /\ v = kv_proj incl v0 /\ kqual prefix cursor k = true /\ kfind k p_flat = None.
+  Proof.
+    intros k v. unfold p_Q, qproj. rewrite in_map_iff. split.
+    - intros [[k' v0] [E Hin]]. cbn in E. inversion E; subst k' v. clear E.
+      apply filter_In in Hin. destruct Hin as [Hin Hq]. cbn in Hq.
+      apply (proj1 (isort_in bltb _ _)) in Hin. apply filter_In in Hin. destruct Hin as [Hin Hr]. cbn in Hr.
+      apply andb_true_iff in Hr. destruct Hr as [Hr1 Hr2].
+      unfold kv_qualifies in Hq. apply andb_true_iff in Hq. destruct Hq as [Hc Hm].
+      apply negb_true_iff in Hm.
+      assert (Hp : has_prefix prefix k = true).
+      { rewrite <- (prefix_range prefix pe k); [| rewrite <- prefix_end_pend; auto | apply (Hok _ Hin)].
+        rewrite Hr2, andb_true_r. eapply bleb_trans; [apply qs_ge_prefix | exact Hr1]. }
+      assert (Hqual : kqual prefix cursor k = true) by (unfold kqual; rewrite Hp, Hc; auto).
+      exists v0. repeat split; auto.
+      unfold kmem in Hm. pose proof (dr_find k) as Hd. rewrite Hqual in Hd. rewrite Hd in Hm.
+      destruct (kfind k p_flat); [discriminate | auto].
+    - intros [v0 [Hin [-> [Hqual Hf]]]]. exists (k, v0). split; auto.
+      unfold kqual in Hqual. apply andb_true_iff in Hqual. destruct Hqual as [Hp Hc].
+      apply filter_In. split.
+      + apply (proj2 (isort_in bltb _ _)). apply filter_In. split; auto. cbn.
+        pose proof (prefix_range prefix pe k) as Hr. rewrite Hp in Hr.
+        rewrite <- prefix_end_pend in Hr. specialize (Hr Hpe (Hok _ Hin)).
+        apply andb_true_iff in Hr. destruct Hr as [Hr1 Hr2]. rewrite Hr2, andb_true_r.
+        unfold p_qs. destruct (negb (is_nil cursor) && bleb prefix cursor); auto. apply bltb_bleb; auto.
+      + cbn. unfold kv_qualifies. rewrite Hc. cbn. unfold kmem. rewrite dr_find.
+        unfold kqual. rewrite Hp, Hc. cbn. rewrite Hf. auto.
+  Qed.
+
+  (* every qualifying database row is in the listing *)
+  Lemma Q_in_L : forall x, In x p_Q -> In x p_L.
+  Proof.
+    intros [k v] H. apply Q_in in H. destruct H as [v0 [Hin [-> [Hq Hf]]]].
+    apply kv_listing_in. split; auto. exists v0. split; auto.
+    unfold kv_world. fold p_flat. rewrite Hf. apply kfind_in_nodup; auto.
+  Qed.
+
+  Definition le_cut (cutoff : bytes) (x : kvrow) : bool := is_nil cutoff || negb (bltb cutoff (fst x)).
+
+  Definition p_extra (cutoff : bytes) : list kvrow :=
+    flat_map (fun e : kvmod =>
+                match snd e with
+                | None => []
+                | Some val => if negb (is_nil cutoff) && bltb cutoff (fst e) then []
+                              else [(fst e, kv_proj incl val)]
+                end) p_dr.
+
+  Lemma extra_in : forall cutoff k v, In (k, v) (p_extra cutoff) <->
+    exists val, In (k, Some val) p_dr /\ v = kv_proj incl val /\ le_cut cutoff (k, v) = true.
+  Proof.
+    intros cutoff k v. unfold p_extra. rewrite in_flat_map. unfold le_cut. cbn [fst]. split.
+    - intros [[k' mv] [Hin H]]. cbn in H. destruct mv as [val|]; [|contradiction].
+      destruct (negb (is_nil cutoff) && bltb cutoff k') eqn:E; [contradiction|].
+      destruct H as [H|[]]. inversion H; subst. exists val. repeat split; auto.
+      destruct (is_nil cutoff); cbn in *; auto. rewrite E. auto.
+    - intros [val [Hin [-> Hle]]]. exists (k, Some val). split; auto. cbn.
+      destruct (is_nil cutoff); cbn in *; [left; auto|]. apply negb_true_iff in Hle. rewrite Hle. left; auto.
+  Qed.
+
+  Lemma extra_keys_nodup : forall cutoff, NoDup (map fst (p_extra cutoff)).
+  Proof.
+    intro cutoff. unfold p_extra. destruct dr_keys as [_ Hn]. revert Hn.
+    induction p_dr as [|[k mv] t IH]; cbn; intro Hn; [constructor|]. inversion Hn; subst.
+    destruct mv as [val|]; cbn; auto.
+    destruct (negb (is_nil cutoff) && bltb cutoff k); cbn; auto.
+    constructor; auto. intro Hin. apply H1. apply in_map_iff in Hin. destruct Hin as [[k' v'] [E Hin]].
+    cbn in E; subst k'. apply in_flat_map in Hin. destruct Hin as [[k2 mv2] [Hin2 H]]. cbn in H.
+    destruct mv2; [|contradiction]. destruct (negb (is_nil cutoff) && bltb cutoff k2); [contradiction|].
+    destruct H as [H|[]]. inversion H; subst. apply (in_map fst) in Hin2. auto.
+  Qed.
+
+  (* the merged, sorted candidate list is the listing cut at the cutoff *)
+  Lemma merge_char : forall taken rest, p_Q = taken ++ rest -> (rest <> [] -> taken <> []) ->
+    let dbmore := negb (is_nil rest) in
+    let cutoff := if dbmore then match last_opt taken with Some kv => fst kv | None => [] end else [] in
+    let S := isort bltb (taken ++ p_extra cutoff) in
+    exists L', p_L = S ++ L' /\ (dbmore = true <-> L' <> []) /\ (p_L <> [] -> S <> []).
+  Proof.
+    intros taken rest HQ Hne dbmore cutoff S.
+    pose proof Q_sorted as HQs. rewrite HQ in HQs.
+    destruct (ssorted_app_inv bltb _ _ HQs) as [Hts [Hrs Hcross]].
+    destruct dr_keys as [Hdrq Hdrn].
+    (* S is strictly sorted *)
+    assert (HSs : bsorted S).
+    { apply isort_ssorted; auto using bltb_irrefl, bltb_trans, bltb_total.
+      rewrite map_app. apply NoDup_app_disjoint.
+      - apply (ssorted_nodup_keys bltb); auto using bltb_irrefl.
+      - apply extra_keys_nodup.
+      - intros k Hk1 Hk2. apply in_map_iff in Hk1. destruct Hk1 as [[k1 v1] [E1 H1]]. cbn in E1; subst k1.
+        apply in_map_iff in Hk2. destruct Hk2 as [[k2 v2] [E2 H2]]. cbn in E2; subst k2.
+        assert (In (k, v1) p_Q) as HinQ by (rewrite HQ; apply in_or_app; auto).
+        apply Q_in in HinQ. destruct HinQ as [v0 [_ [_ [Hq Hf]]]].
+        apply extra_in in H2. destruct H2 as [val [Hin _]].
+        apply kfind_in_nodup in Hin; auto. rewrite dr_find, Hq, Hf in Hin. discriminate. }
+    assert (HLs : bsorted p_L) by apply kv_listing_sorted.
+    (* membership *)
+    assert (Hmem : forall x, In x S <-> In x p_L /\ le_cut cutoff x = true).
+    { intros [k v]. unfold S. rewrite isort_in, in_app_iff. split.
+      - intros [Ht|He].
+        + split; [apply Q_in_L; rewrite HQ; apply in_or_app; auto|].
+          unfold le_cut, cutoff, dbmore. destruct (is_nil rest) eqn:En; cbn; auto.
+          destruct (last_opt taken) as [z|] eqn:El; cbn; auto.
+          rewrite (sorted_last_max taken z Hts El _ Ht). destruct (is_nil (fst z)); auto.
+        + apply extra_in in He. destruct He as [val [Hin [-> Hle]]]. split; auto.
+          apply kv_listing_in. apply kfind_in_nodup in Hin; auto. rewrite dr_find in Hin.
+          destruct (kqual prefix cursor k) eqn:Eq; [|discriminate]. split; auto.
+          exists val. split; auto. unfold kv_world. fold p_flat. rewrite Hin. auto.
+      - intros [HL Hle]. apply kv_listing_in in HL. destruct HL as [Hq [v0 [Hw ->]]].
+        unfold kv_world in Hw. fold p_flat in Hw. destruct (kfind k p_flat) as [mv|] eqn:Ef.
+        + subst mv. right. apply extra_in. exists v0. repeat split; auto.
+          apply kfind_some_in. rewrite dr_find, Hq. auto.
+        + assert (HinQ : In (k, kv_proj incl v0) p_Q).
+          { apply Q_in. exists v0. repeat split; auto. apply kfind_some_in; auto. }
+          rewrite HQ in HinQ. apply in_app_or in HinQ. destruct HinQ as [Ht|Hr]; auto.
+          exfalso. unfold le_cut, cutoff, dbmore in Hle. cbn [fst] in Hle.
+          assert (rest <> []) as Hrne by (intro E; rewrite E in Hr; contradiction).
+          destruct rest as [|r0 rest']; [contradiction|]. cbn in Hle.
+          specialize (Hne Hrne). destruct (last_opt taken) as [z|] eqn:El.
+          * apply last_opt_split in El. destruct El as [l' ->].
+            specialize (Hcross z (k, kv_proj incl v0) (in_or_app _ _ _ (or_intror (or_introl eq_refl))) Hr).
+            unfold klt in Hcross. cbn in Hcross. rewrite Hcross in Hle. cbn in Hle.
+            destruct (fst z); [|discriminate]. destruct k; discriminate.
+          * apply last_opt_none in El. contradiction. }
+    (* cut *)
+    destruct (filter_downclosed bltb bltb_trans (le_cut cutoff) p_L HLs) as [Hsplit Hrest].
+    { intros x y Hxy Hy. unfold le_cut in *. destruct (is_nil cutoff); cbn in *; auto.
+      apply negb_true_iff in Hy. apply negb_true_iff.
+      destruct (bltb cutoff (fst x)) eqn:E; auto. unfold klt in Hxy.
+      rewrite (bltb_trans _ _ _ E Hxy) in Hy. discriminate. }
+    assert (HS : S = filter (le_cut cutoff) p_L).
+    { apply (ssorted_unique bltb); auto using bltb_irrefl, bltb_trans.
+      - apply ssorted_filter; auto.
+      - intro x. rewrite Hmem, filter_In. tauto. }
+    exists (filter (fun x => negb (le_cut cutoff x)) p_L). rewrite HS. split; [exact Hsplit|]. split.
+    - unfold dbmore. split.
+      + intro Hm. destruct rest as [|r0 rest']; [discriminate|].
+        assert (In r0 p_L) as Hr0 by (apply Q_in_L; rewrite HQ; apply in_or_app; right; left; auto).
+        intro E. assert (In r0 (filter (fun x => negb (le_cut cutoff x)) p_L)) as Hin; [|rewrite E in Hin; contradiction].
+        apply filter_In. split; auto. apply negb_true_iff.
+        destruct (le_cut cutoff r0) eqn:Ele; auto. exfalso.
+        assert (In r0 S) as HinS by (apply Hmem; auto).
+        unfold S in HinS. rewrite isort_in in HinS. apply in_app_or in HinS. destruct HinS as [Ht|He].
+        * specialize (Hcross r0 r0 Ht (or_introl eq_refl)). unfold klt in Hcross. rewrite bltb_irrefl in Hcross. discriminate.
+        * destruct r0 as [k0 v0]. apply extra_in in He. destruct He as [val [Hin _]].
+          apply kfind_in_nodup in Hin; auto.
+          assert (In (k0, v0) p_Q) as HinQ by (rewrite HQ; apply in_or_app; right; left; auto).
+          apply Q_in in HinQ. destruct HinQ as [v1 [_ [_ [Hq Hf]]]].
+          rewrite dr_find, Hq, Hf in Hin. discriminate.
+      + intro HL'. destruct (is_nil rest) eqn:En; auto. exfalso. apply HL'.
+        unfold cutoff, dbmore. rewrite En. cbn.
+        clear. induction p_L as [|x t IH]; cbn; auto.
+    - intros HLne E. rewrite <- HS in E.
+      destruct p_L as [|x0 t0] eqn:EL; [contradiction|].
+      destruct (le_cut cutoff x0) eqn:Ele.
+      + assert (In x0 S) as Hin by (apply Hmem; split; [left; auto | auto]). rewrite E in Hin. contradiction.
+      + unfold le_cut, cutoff, dbmore in Ele. destruct (is_nil rest) eqn:En; cbn in Ele; [discriminate|].
+        assert (rest <> []) as Hrne by (intro E2; rewrite E2 in En; discriminate).
+        specialize (Hne Hrne). destruct taken as [|t1 tk]; [contradiction|].
+        assert (In t1 S) as Hin; [|rewrite E in Hin; contradiction].
+        unfold S. rewrite isort_in. apply in_or_app. left. left. auto.
+  Qed.
+End Page.
